@@ -949,7 +949,8 @@ class SamplingMethod(DirectMethod):
             if a in algs:
                 initial_alg[a] = v
                 del initial[a]
-        for var, expr in initial.items():
+        # plain numbers depend on nothing: apply them first, so that expressions of time see the guessed t0 and T
+        for var, expr in sorted(initial.items(), key=lambda e: not is_numeric(e[1])):
             if is_equal(var, stage.T):
                 var = self.T
             if is_equal(var, stage.t0):
